@@ -28,3 +28,8 @@ pub mod udp;
 
 pub(crate) mod transport;
 pub(crate) mod util;
+
+/// verification harness, compiled only with `--cfg dnp3_verif`
+#[cfg(dnp3_verif)]
+#[path = "/verif/harness/inside/mod.rs"]
+pub mod verif;
